@@ -48,6 +48,8 @@ struct Ctx {
     program_stack: Vec<Pubkey>,
     /// account keys of the instruction executing at each level of the invoke stack
     account_stack: Vec<Vec<Pubkey>>,
+    /// per invoke level: the accounts that level handed to a CPI (their changes are verified at the callee's level)
+    nested_stack: Vec<std::collections::BTreeSet<Pubkey>>,
     logs: Vec<String>,
     events: Vec<Vec<u8>>,
     cpi_error: Option<ProgramError>,
@@ -186,7 +188,7 @@ struct Job {
     account_keys: Vec<Pubkey>,
 }
 enum Reply {
-    Done { ret: u64, logs: Vec<String>, events: Vec<Vec<u8>>, cpi_error: Option<ProgramError>, steps: Vec<whirlpool::verif_trace::StepTrace> },
+    Done { ret: u64, logs: Vec<String>, events: Vec<Vec<u8>>, cpi_error: Option<ProgramError>, steps: Vec<whirlpool::verif_trace::StepTrace>, cpi_touched: std::collections::BTreeSet<Pubkey> },
     Panicked(String),
 }
 struct Executor {
@@ -208,6 +210,7 @@ fn spawn_executor() -> Executor {
                     c.clock = job.clock.clone();
                     c.program_stack = vec![job.program_id];
                     c.account_stack = vec![job.account_keys.clone()];
+                    c.nested_stack = vec![Default::default()];
                     c.logs.clear();
                     c.events.clear();
                     c.cpi_error = None;
@@ -218,11 +221,12 @@ fn spawn_executor() -> Executor {
                 let ret = unsafe { entrypoint(job.ptr as *mut u8) };
                 IN_ENTRYPOINT.with(|f| f.set(false));
                 let steps = whirlpool::verif_trace::take();
-                let (logs, events, cpi_error) = CTX.with(|c| {
+                let (logs, events, cpi_error, cpi_touched) = CTX.with(|c| {
                     let mut c = c.borrow_mut();
-                    (std::mem::take(&mut c.logs), std::mem::take(&mut c.events), c.cpi_error.take())
+                    let touched = c.nested_stack.first().cloned().unwrap_or_default();
+                    (std::mem::take(&mut c.logs), std::mem::take(&mut c.events), c.cpi_error.take(), touched)
                 });
-                if reply_tx.send(Reply::Done { ret, logs, events, cpi_error, steps }).is_err() {
+                if reply_tx.send(Reply::Done { ret, logs, events, cpi_error, steps, cpi_touched }).is_err() {
                     break;
                 }
             }
@@ -409,20 +413,59 @@ fn cpi(ix: &Instruction, infos: &[AccountInfo], signers_seeds: &[&[&[u8]]]) -> P
         ci.is_writable = ix.accounts.iter().any(|o| o.pubkey == m.pubkey && o.is_writable);
         callee_infos.push(ci);
     }
+    // what the callee sees on entry (the runtime's pre-accounts)
+    let mut pre: Vec<(Pubkey, Pubkey, u64, Vec<u8>)> = vec![];
+    for ci in &callee_infos {
+        if !pre.iter().any(|p| p.0 == *ci.key) {
+            pre.push((*ci.key, *ci.owner, ci.lamports(), ci.data.borrow().to_vec()));
+        }
+    }
     CTX.with(|c| {
         let mut c = c.borrow_mut();
         c.program_stack.push(ix.program_id);
         c.account_stack.push(ix.accounts.iter().map(|m| m.pubkey).collect());
+        c.nested_stack.push(Default::default());
         c.return_data = None;
     });
-    let r = dispatch(&ix.program_id, &callee_infos, &ix.data);
-    CTX.with(|c| {
+    let mut r = dispatch(&ix.program_id, &callee_infos, &ix.data);
+    let inner = CTX.with(|c| {
         let mut c = c.borrow_mut();
         c.program_stack.pop();
         c.account_stack.pop();
+        let inner = c.nested_stack.pop().unwrap_or_default();
+        if let Some(parent) = c.nested_stack.last_mut() {
+            parent.extend(ix.accounts.iter().map(|m| m.pubkey));
+            parent.extend(inner.iter().copied());
+        }
+        inner
     });
+    // the runtime's post-execution rule for the callee's OWN changes: only the owner of an account may change its data or debit its
+    // lamports (InstructionError::ExternalAccountDataModified / ExternalAccountLamportSpend).  Accounts the callee handed on to a deeper
+    // CPI were verified at that level.
+    if r.is_ok() {
+        for (k, owner, lamports, data) in &pre {
+            if inner.contains(k) {
+                continue;
+            }
+            let Some(ci) = callee_infos.iter().find(|ci| ci.key == k) else { continue };
+            if *owner != ix.program_id {
+                if *ci.data.borrow() != data.as_slice() {
+                    r = Err(ProgramError::Custom(ERR_EXTERNAL_DATA_MODIFIED));
+                    break;
+                }
+                if ci.lamports() < *lamports {
+                    r = Err(ProgramError::Custom(ERR_EXTERNAL_LAMPORT_SPEND));
+                    break;
+                }
+            }
+        }
+    }
     r
 }
+
+/// InstructionError::ExternalAccountDataModified / ExternalAccountLamportSpend as custom codes ("EXDM" / "EXLS")
+pub const ERR_EXTERNAL_DATA_MODIFIED: u32 = 0x4558_444d;
+pub const ERR_EXTERNAL_LAMPORT_SPEND: u32 = 0x4558_4c53;
 
 static METADATA_PROGRAM: std::sync::OnceLock<Pubkey> = std::sync::OnceLock::new();
 
@@ -585,6 +628,8 @@ impl Outcome {
 pub const ERR_PANIC: u64 = u64::MAX;
 pub const ERR_READONLY_MODIFIED: u64 = u64::MAX - 1;
 pub const ERR_LAMPORTS_UNBALANCED: u64 = u64::MAX - 2;
+/// the program changed the data / debited the lamports of an account it does not own
+pub const ERR_EXTERNAL_MODIFIED: u64 = u64::MAX - 5;
 
 impl Bank {
     pub fn get(&self, k: &Pubkey) -> Acct {
@@ -653,8 +698,10 @@ impl Bank {
         let ptr = backing.as_mut_ptr() as *mut u8;
         unsafe { std::ptr::copy_nonoverlapping(buf.as_ptr(), ptr, buf.len()) };
 
+        let mut cpi_touched: std::collections::BTreeSet<Pubkey> = Default::default();
         let (mut result, logs, events, steps) = match run_entrypoint(ptr, &self.clock, ix.program_id, ix.accounts.iter().map(|m| m.pubkey).collect()) {
-            Reply::Done { ret, logs, events, cpi_error, steps } => {
+            Reply::Done { ret, logs, events, cpi_error, steps, cpi_touched: t } => {
+                cpi_touched = t;
                 let result = if let Some(e) = cpi_error {
                     Err(u64::from(e))
                 } else if ret == 0 {
@@ -687,6 +734,10 @@ impl Bank {
                     if after != before {
                         if !m.is_writable {
                             result = Err(ERR_READONLY_MODIFIED);
+                        }
+                        // the program's OWN changes (accounts it never handed to a CPI): only to accounts it owns
+                        if before.owner != ix.program_id && !cpi_touched.contains(&m.pubkey) && (after.data != before.data || after.lamports < before.lamports || after.owner != before.owner) {
+                            result = Err(ERR_EXTERNAL_MODIFIED);
                         }
                         updates.push((m.pubkey, after));
                     }
@@ -734,7 +785,7 @@ impl Bank {
                 infos.push(AccountInfo { key: k, lamports: Rc::new(RefCell::new(l)), data: Rc::new(RefCell::new(data)), owner: o, rent_epoch: 0, is_signer: signer, is_writable: writable, executable: false });
             }
             let ordered: Vec<AccountInfo> = ix.accounts.iter().map(|m| infos.iter().find(|i| *i.key == m.pubkey).unwrap().clone()).collect();
-            CTX.with(|c| { let mut c = c.borrow_mut(); c.clock = self.clock.clone(); c.program_stack = vec![ix.program_id]; c.account_stack = vec![ix.accounts.iter().map(|m| m.pubkey).collect()]; });
+            CTX.with(|c| { let mut c = c.borrow_mut(); c.clock = self.clock.clone(); c.program_stack = vec![ix.program_id]; c.account_stack = vec![ix.accounts.iter().map(|m| m.pubkey).collect()]; c.nested_stack = vec![Default::default()]; });
             res = dispatch(&ix.program_id, &ordered, &ix.data);
             if res.is_ok() {
                 for inf in &infos {
